@@ -5,7 +5,7 @@ from fractions import Fraction
 import casadi as ca
 import mpmath as mp
 
-from ..harness import Harness, Claim, HarnessError
+from ..harness import Harness, Claim, HarnessError, StructureChanged
 from ..val import Val
 from .. import val as V
 from ..enc import Ctx
@@ -124,7 +124,7 @@ class Solve(Harness):
         solve, traj = fs[f"bezier{self.deg}_solve"], fs[f"bezier{self.deg}_traj"]
         k = 4 if self.deg == 7 else 2
         if solve.size_in(0) != (k, 1) or solve.size_in(1) != (k, 1) or solve.size_out(0) != (1, self.deg + 1):
-            raise HarnessError("unexpected solver signature")
+            raise StructureChanged("unexpected solver signature")
         w0, w1, Ts = ca.SX.sym("w0", k), ca.SX.sym("w1", k), ca.SX.sym("T")
         T = Ts if self.Tconst is None else ca.DM(float(Fraction(self.Tconst))) + 0 * Ts
         P = solve(w0, w1, T)
